@@ -38,6 +38,8 @@ type C20Scenario struct {
 	Limit       int    `json:"limit,omitempty"`
 	LimitAction string `json:"limit_action,omitempty"`
 	Chunks      []int  `json:"chunks,omitempty"`
+	// OnePiece: the body is handed over in one write (the spill file is created while the buffer is still empty)
+	OnePiece bool `json:"one_piece,omitempty"`
 	// BadBoundary (multipart): the body never shows the boundary announced in the Content-Type header
 	BadBoundary string `json:"bad_boundary,omitempty"` // "", other | indented | text | noeol
 }
@@ -70,6 +72,9 @@ func genC20Scenario(t *rapid.T) C20Scenario {
 				rest -= n
 			}
 		}
+	}
+	if s.BodyKind == "spill" || s.BodyKind == "multipart" {
+		s.OnePiece = rapid.Bool().Draw(t, "onepiecebody")
 	}
 	s.KeepFiles = rapid.SampledFrom([]string{"Off", "Off", "On", "RelevantOnly"}).Draw(t, "keep")
 	s.Audit = rapid.Bool().Draw(t, "audit")
@@ -263,7 +268,7 @@ func runScenario(s *C20Scenario, dir string) *C20Result {
 				}
 				// the body arrives in two writes: the first stays in memory, the second makes the buffer spill
 				cut := len(body)
-				if cut > 20 {
+				if cut > 20 && !s.OnePiece {
 					cut = 20
 				}
 				var it *types.Interruption
@@ -455,6 +460,9 @@ func checkC20Early(s *C20Scenario) Result {
 		}
 	}
 	res.Labels = append(res.Labels, "body:"+s.BodyKind, "keep:"+s.KeepFiles)
+	if s.OnePiece && s.BodyKind == "spill" {
+		res.Labels = append(res.Labels, "spill-file-created-for-the-first-write")
+	}
 	if s.StopAfter >= 0 {
 		res.Labels = append(res.Labels, fmt.Sprintf("stopped-after-%d-calls", s.StopAfter))
 	}
@@ -798,6 +806,9 @@ func checkC20Faults(c *C20FaultCase) Result {
 		}
 	}
 	res.Labels = append(res.Labels, "body:"+s.BodyKind, "keep:"+s.KeepFiles)
+	if s.OnePiece && s.BodyKind == "spill" {
+		res.Labels = append(res.Labels, "spill-file-created-for-the-first-write")
+	}
 	if s.Audit {
 		res.Labels = append(res.Labels, "audit:"+s.AuditType)
 	}
@@ -837,6 +848,7 @@ var c20Core = []C20Scenario{
 	{BodyKind: "multipart", Files: 3, KeepFiles: "Off", Audit: true, AuditType: "Serial", RespBody: true, StopAfter: -1},
 	{BodyKind: "multipart", Files: 2, KeepFiles: "RelevantOnly", Audit: true, AuditType: "Concurrent", StopAfter: -1},
 	{BodyKind: "spill", KeepFiles: "Off", Audit: false, AuditType: "Serial", Deny: 2, RespBody: true, StopAfter: -1},
+	{BodyKind: "spill", OnePiece: true, KeepFiles: "Off", Audit: false, AuditType: "Serial", RespBody: false, StopAfter: -1},
 }
 
 func TestC20Faults(t *testing.T) {
